@@ -196,6 +196,9 @@ impl Ctx {
         let lim: u64 = std::env::var("C20_REQ_LIMIT_MS").ok().and_then(|s| s.parse().ok()).unwrap_or(3000);
         if tokio::time::timeout(Duration::from_millis(lim), self.session.query_unpaged(marker(q), ())).await.is_err() {
             self.slow.fetch_add(1, Ordering::Relaxed);
+            if std::env::var("C20_DEBUG").is_ok() {
+                eprintln!("SLOW request {} abandoned", q);
+            }
         }
     }
     async fn requests(self: &Arc<Self>, n: u32, concurrent: bool) {
